@@ -221,6 +221,11 @@ func applyProfile(t *Tape, property string, sc *Scenario, cfg *Config) {
 	if property == "C17" && t.Next(3) == 0 {
 		sc.Events = append(sc.Events, UserEvent{Kind: "release-v3", AtStep: 1 + t.Next(len(sc.Steps)), AtState: stepStates[1+t.Next(5)]})
 	}
+	// C16 in the loop: a broken custom provider script for a while (operator error), put right later
+	if (property == "C15" || property == "C19") && sc.Traffic == "custom-cm" && t.Next(3) == 1 {
+		sc.Events = append(sc.Events, UserEvent{Kind: "hostile-script", AtStep: 1 + t.Next(len(sc.Steps)), AtState: stepStates[t.Next(len(stepStates))], Arg: t.Next(1000)},
+			UserEvent{Kind: "restore-script", After: "hostile-script", Arg: 5 + t.Next(40)})
+	}
 	faulty := false
 	switch property {
 	case "C06", "C18", "C19":
